@@ -315,13 +315,15 @@ void h_assert(void)
 
 static Array g_arr;
 static DynArray g_dyn;
-/* argument vector: the container argument is given by a STATIC INITIALISER (one union component, constant pointer): a run-time
- * write of the pointer member into the Value union leaves a byte_update term, the container pointer stops being a constant for
- * symbolic execution and every element-kind arm (strings, structs) of the builtin is walked */
+/* argument vector: the container argument is given by a STATIC INITIALISER through the WIDEST union member (function_val: two
+ * pointers; its first 8 bytes are the bytes of array_val / dyn_array_val, the rest is zero - the same object representation
+ * as `.as.dyn_array_val = &g_dyn` on a zeroed Value).  Any other way of storing the pointer (run-time member write, initialiser
+ * through the narrow member) leaves a byte_update term in CBMC's symbolic execution, the container pointer is then not a
+ * constant and every element-kind arm (strings, structs) of the builtin is walked (measured: > 300 s instead of seconds). */
 #if VERIF_AK == AK_ARRAY
-static Value g_argv[3] = { { .type = VAL_ARRAY, .as = { .array_val = &g_arr } }, { .type = VAL_INT }, { .type = VAL_INT } };
+static Value g_argv[3] = { { .type = VAL_ARRAY, .as = { .function_val = { .function_name = (char *)&g_arr, .signature = 0 } } }, { .type = VAL_INT }, { .type = VAL_INT } };
 #else
-static Value g_argv[3] = { { .type = VAL_DYN_ARRAY, .as = { .dyn_array_val = &g_dyn } }, { .type = VAL_INT }, { .type = VAL_INT } };
+static Value g_argv[3] = { { .type = VAL_DYN_ARRAY, .as = { .function_val = { .function_name = (char *)&g_dyn, .signature = 0 } } }, { .type = VAL_INT }, { .type = VAL_INT } };
 #endif
 
 void h_acc(void)
@@ -512,8 +514,8 @@ void h_slice(void)
     g_dyn.data = malloc((size_t)in_cap * 8); __CPROVER_assume(g_dyn.data != NULL);
 #define SRC_AT(k) (((int64_t *)g_dyn.data)[k])
 #endif
-    g_argv[1].type = VAL_INT; g_argv[1].as.int_val = in_start;
-    g_argv[2].type = VAL_INT; g_argv[2].as.int_val = in_length;
+    g_argv[1] = create_int(in_start);          /* the interpreter's own constructor (src/env.c): whole-struct copies, no union member writes */
+    g_argv[2] = create_int(in_length);
     const int64_t s = spec_slice_start(in_start, in_len), n = spec_slice_count(in_start, in_length, in_len);
     {   /* case split of the (start, length) plane */
         int64_t l = in_length < 0 ? 0 : in_length;
@@ -549,3 +551,21 @@ void h_slice(void)
     VERIF_COVER(in_len > 1 && s == 1); VERIF_COVER(s == in_len && in_len == VERIF_SLICE_CAP);
 #endif
 }
+#ifdef VERIF_PROBE
+void h_probe(void)
+{
+    in_len = nondet_i64(); __CPROVER_assume(0 <= in_len && in_len <= 5);
+    g_dyn.length = in_len; g_dyn.capacity = 5; g_dyn.elem_type = ELEM_INT; g_dyn.elem_size = 8;
+    g_dyn.data = malloc(40);
+    DynArray *arr = g_argv[0].as.dyn_array_val;
+    if (arr != &g_dyn) __CPROVER_assert(0, "PROBE pointer not constant");
+    ElementType t = dyn_array_get_elem_type(arr);
+    if (t != ELEM_INT) __CPROVER_assert(0, "PROBE t not constant");
+    int64_t len = dyn_array_length(arr);
+    DynArray *out = dyn_array_new(t);
+    if (out->elem_type != ELEM_INT) __CPROVER_assert(0, "PROBE out type not constant");
+    ElementType t2 = dyn_array_get_elem_type(arr);
+    if (t2 != ELEM_INT) __CPROVER_assert(0, "PROBE t2 not constant after dyn_array_new");
+    (void)len;
+}
+#endif
